@@ -2,6 +2,7 @@ package fam
 
 import (
 	"fmt"
+	"go/ast"
 	"regexp"
 	"sort"
 	"strings"
@@ -637,6 +638,11 @@ func (w *World) checkDefault(fm *FileModel, p *Prop, S *Struct, F *Field, path s
 			}
 			out = append(out, Issue{Rule: "A-DEF", Construct: "assigned literal is not this property's default", Msg: fmt.Sprintf("%s: the field is assigned %s (%s), not the default stated for this property", path, a.Expr, other)})
 		}
+		if p.Spec.Kind == "string" && p.Spec.Default == "scalar" && strings.Contains(strings.TrimLeft(a.Expr, "&("), "`") {
+			// inside a raw string literal the Go scanner drops every carriage return and a back-quote ends the literal: the
+			// assigned value is then not the default for every string
+			out = append(out, Issue{Rule: "A-DEF", Construct: "string default emitted in a raw string literal", Msg: fmt.Sprintf("%s: the default is assigned as %s: a raw string literal loses carriage returns (and cannot hold a back-quote), so the field does not receive the schema's default for every string", path, a.Expr)})
+		}
 		if m.PlainDecl >= 0 && a.Top < m.PlainDecl {
 			out = append(out, Issue{Rule: "A-DEF", Construct: "default assigned before the typed decode", Msg: fmt.Sprintf("%s: the default is assigned before the typed decode, which then overwrites it", path)})
 		}
@@ -667,7 +673,59 @@ func MethodIssues(fm *FileModel) []Issue {
 			rule, rest, _ := strings.Cut(p, ": ")
 			out = append(out, Issue{Rule: rule, Construct: normLine(rest), Msg: n + ": " + rest})
 		}
+		out = append(out, remainDecodeIssues(fm, m, n)...)
 	}
+	return out
+}
+
+// remainDecodeIssues (A-NILG:remain): the collector of additional properties is filled with mapstructure.Decode(raw, &plain.F).
+// For the document `null` the raw key map is a nil map[string]interface{} (encoding/json and yaml.v3 leave a nil map), while the
+// emitted default has already put an EMPTY, non-nil map into plain.F (its guard `!ok || v == nil` holds for every key of a nil
+// map). mapstructure v2.1.0 (decodeMapFromMap, read in the module cache) then executes `val.Set(dataVal)` — the nil INPUT map
+// assigned to the destination — which panics in reflect when the destination's type is not map[string]interface{} itself.
+// So a call whose destination is another map type must be dominated by a test that raw is not nil.
+func remainDecodeIssues(fm *FileModel, m *skel.Method, name string) []Issue {
+	var out []Issue
+	st := fm.Structs[m.Recv]
+	if st == nil || m.Decl == nil || m.Decl.Body == nil {
+		return nil
+	}
+	fset := fm.F.Fset
+	var walk func(stmts []ast.Stmt, rawChecked bool)
+	walk = func(stmts []ast.Stmt, rawChecked bool) {
+		for _, s := range stmts {
+			ifs, ok := s.(*ast.IfStmt)
+			if !ok {
+				continue
+			}
+			if ifs.Init != nil && !rawChecked {
+				in := skel.ExprString(fset, ifs.Init)
+				if i := strings.Index(in, "mapstructure.Decode(raw, &plain."); i >= 0 {
+					field := in[i+len("mapstructure.Decode(raw, &plain."):]
+					field = strings.TrimSuffix(field, ")")
+					var ft string
+					for _, f := range st.Fields {
+						if f.Name == field {
+							ft = f.Type
+						}
+					}
+					preset := false
+					for _, a := range m.Assigns {
+						if a.Field == field && strings.HasPrefix(a.Expr, "map[") {
+							preset = true
+						}
+					}
+					if ft != "" && ft != "map[string]interface{}" && ft != "interface{}" && strings.HasPrefix(ft, "map[") && preset {
+						out = append(out, Issue{Rule: "A-NILG", Construct: "additional properties collected from a possibly nil raw map into a typed map",
+							Msg: fmt.Sprintf("%s: `%s` runs also for the document null, where raw is a nil map[string]interface{} and plain.%s already holds an empty %s: mapstructure assigns the nil input to the destination with reflect.Set, which panics because the map types differ", name, in, field, ft)})
+					}
+				}
+			}
+			cond := skel.ExprString(fset, ifs.Cond)
+			walk(ifs.Body.List, rawChecked || strings.Contains(cond, "raw != nil") || strings.Contains(cond, "len(raw) > 0") || strings.Contains(cond, "len(raw) != 0"))
+		}
+	}
+	walk(m.Decl.Body.List, false)
 	return out
 }
 
@@ -764,7 +822,7 @@ func MergeAllOf(s *Spec) *Spec {
 		}
 	}
 	for _, b := range s.AllOf {
-		for _, l := range b.ReqOnly {
+		for _, l := range append(append([]string{}, b.ReqOnly...), b.ReqAlso...) {
 			if p := labels[l]; p != nil && p.Name != nil {
 				reqAtoms[p.Name.ID] = true
 			}
